@@ -38,7 +38,7 @@ RELATED = {
     "C01": ["contracts.c03", "contracts.c03_bounded", "contracts.c04", "contracts.c05", "contracts.c05c", "contracts.c18", "contracts.c18_bounded", "contracts.c02", "contracts.c02_bounded"],
     "C05": ["contracts.c01b"],
     "C06": ["contracts.c03"],
-    "C08": ["contracts.c13", "contracts.c13b"],
+    "C08": ["contracts.c13", "contracts.c13b", "contracts.c14"],
     "C10": ["contracts.c08", "contracts.c12", "contracts.c13"],
     "C12": ["contracts.c13", "contracts.c17"],
     "C17": ["contracts.c12", "contracts.c03_bounded"],
